@@ -33,6 +33,7 @@ import (
 	"encoding/hex"
 	"fmt"
 	"hash"
+	"math/big"
 	"os"
 	"path/filepath"
 	"runtime/debug"
@@ -261,6 +262,85 @@ func fourqCoord(r *lib.Rng) []byte {
 		b[15] &= 0x7f
 	}
 	return b
+}
+
+// fourqCoordPair draws two coordinates below 2^127 whose sum (as integers)
+// is at a carry boundary of the two-word addition with end-around carry:
+// 2^127 + 2^64 - 1 - d (bit 127 set over an all-ones low word), 2^127 - 1 +- d,
+// 2^128 - 2 - d, 2^64 - 1 +- d, 2^127 + d; or two independent fourqCoord values.
+func fourqCoordPair(r *lib.Rng) (a, b []byte) {
+	if r.Intn(4) == 0 {
+		return fourqCoord(r), fourqCoord(r)
+	}
+	one := big.NewInt(1)
+	p2 := func(n uint) *big.Int { return new(big.Int).Lsh(one, n) }
+	d := big.NewInt(int64(r.Intn(3)))
+	var t *big.Int
+	switch r.Intn(6) {
+	case 0:
+		t = new(big.Int).Add(p2(127), p2(64))
+		t.Sub(t, one).Sub(t, d)
+	case 1:
+		t = new(big.Int).Sub(p2(127), one)
+		t.Add(t, d)
+	case 2:
+		t = new(big.Int).Sub(p2(127), one)
+		t.Sub(t, d)
+	case 3:
+		t = new(big.Int).Sub(p2(128), big.NewInt(2))
+		t.Sub(t, d)
+	case 4:
+		t = new(big.Int).Sub(p2(64), one)
+		t.Add(t, d)
+	default:
+		t = new(big.Int).Add(p2(127), d)
+	}
+	lim := new(big.Int).Sub(p2(127), one) // coordinates are at most 2^127 - 1
+	var x *big.Int
+	switch r.Intn(4) {
+	case 0:
+		x = p2(126)
+	case 1:
+		x = new(big.Int).Add(p2(126), new(big.Int).Sub(p2(64), one))
+	default:
+		x = new(big.Int).SetBytes(r.Bytes(16))
+		x.Rsh(x, 1)
+	}
+	y := new(big.Int).Sub(t, x)
+	if y.Sign() < 0 {
+		x, y = new(big.Int).Set(t), new(big.Int)
+	}
+	if y.Cmp(lim) > 0 {
+		y.Set(lim)
+		x = new(big.Int).Sub(t, y)
+	}
+	if x.Cmp(lim) > 0 || x.Sign() < 0 {
+		return fourqCoord(r), fourqCoord(r)
+	}
+	le := func(v *big.Int) []byte {
+		be := v.FillBytes(make([]byte, 16))
+		o := make([]byte, 16)
+		for i := range be {
+			o[15-i] = be[i]
+		}
+		return o
+	}
+	if r.Bool() {
+		x, y = y, x
+	}
+	return le(x), le(y)
+}
+
+// fourqResidue: the little-endian 16-octet coordinate as its residue modulo
+// 2^127-1, big endian.
+func fourqResidue(le []byte) []byte {
+	be := make([]byte, len(le))
+	for i := range le {
+		be[len(le)-1-i] = le[i]
+	}
+	p := new(big.Int).Sub(new(big.Int).Lsh(big.NewInt(1), 127), big.NewInt(1))
+	v := new(big.Int).SetBytes(be)
+	return v.Mod(v, p).FillBytes(make([]byte, 16))
 }
 
 // fourqEncoding is a 32-byte point encoding y0 || y1 (+ sign bit of x) whose
